@@ -216,7 +216,8 @@ inductive SMode where
   | cellXfs
   deriving Repr, DecidableEq
 
-/-- `read_styles`: `defs` = `number_formats` so far (an empty `formatCode` is not recorded), `fmts` = `self.formats`
+/-- `read_styles`: `defs` = `number_formats` so far (an empty `formatCode` is not recorded; keys are `format_id` of the
+    attribute text, and so is the id an `<xf>` is looked up with), `fmts` = `self.formats`
     so far. An `<xf>` is classified when it is met, with the definitions read SO FAR (a `<numFmts>` block written
     after `<cellXfs>` comes too late). `<xf>` / `<numFmt>` outside their block (cellStyleXfs, dxfs) are not looked
     at. Elements are recognised by local name, attributes by their full name. A `formatCode` that is not UTF-8 is
@@ -243,7 +244,7 @@ def xlsxStylesLoop : SMode → List SEv → List (Bytes × List Char) → List C
         | some code =>
           match Utf8.utf8Decode (code.map (·.toNat)) with
           | none => .err "Encoding"
-          | some cs => xlsxStylesLoop .numFmts rest (if cs.isEmpty then defs else defs ++ [(id, cs)]) fmts
+          | some cs => xlsxStylesLoop .numFmts rest (if cs.isEmpty then defs else defs ++ [(formatId id, cs)]) fmts
       else xlsxStylesLoop .numFmts rest defs fmts
     | .end_ n => if localName n = "numFmts".toList then xlsxStylesLoop .top rest defs fmts else xlsxStylesLoop .numFmts rest defs fmts
     | .other => xlsxStylesLoop .numFmts rest defs fmts
@@ -251,7 +252,7 @@ def xlsxStylesLoop : SMode → List SEv → List (Bytes × List Char) → List C
     match ev with
     | .start n attrs =>
       if localName n = "xf".toList then
-        match xlsxStyles defs [attr "numFmtId" attrs] with
+        match xlsxStyles defs [(attr "numFmtId" attrs).map formatId] with
         | .ok cls => xlsxStylesLoop .cellXfs rest defs (fmts ++ cls)
         | .err e => .err e
         | .panic m => .panic m
